@@ -1040,6 +1040,19 @@ def check_download(rec, case):
                               "for a tile that is not cached raises AttributeError"})
         return
     tmp = scratch_dir("c20-dl")
+    if case.get("cache_otherfs"):
+        # the cache directory lies on another file system than the temporary directory (a data disk
+        # against /tmp): rename() from one to the other is refused
+        from vt.props.c12 import other_filesystem_dir
+        import tempfile
+        other = other_filesystem_dir(tempfile.gettempdir())
+        if other is None:
+            rec.count("download.other_filesystem_unavailable")
+            shutil.rmtree(tmp, ignore_errors=True)
+            return
+        shutil.rmtree(tmp, ignore_errors=True)
+        tmp = other
+        rec.count("download.cache_on_other_filesystem")
     saved_path = topo._data_path
     saved_open = topo.urllib.request.urlopen
     name = case["name"]
@@ -1100,6 +1113,8 @@ def run_cache(spec, rec):
     for plan in ([], ["pieces"], ["refused"], [rng.choice(["0.0", "0.3", "0.9"])],
                  [rng.choice(["0.5", "0.99"]), "refused"]):
         check_download(rec, {"kind": "download", "name": rng.choice([t[0] for t in m.TILES]), "plan": plan})
+    check_download(rec, {"kind": "download", "name": m.TILES[spec["shard"] % len(m.TILES)][0],
+                         "plan": [[], ["0.3"]][spec["shard"] % 2], "cache_otherfs": True})
     for i in range(spec["n"]):
         case = gen_cache_ops(rng)
         if i == 0:
